@@ -187,8 +187,17 @@ func TestTimerStatistics(t *testing.T) {
 		}
 		pts := make([]point, n)
 		sampled := false
+		// clustered: large values that differ only in their last digits (timestamps, byte counts): statistics of the
+		// spread must survive the magnitude
+		cluster := 0.0
+		if rapid.IntRange(0, 3).Draw(t, "clustered") == 0 {
+			cluster = rapid.SampledFrom([]float64{1e6, 1e8, 1e9, 1.7e12, -1e8}).Draw(t, "cluster-base")
+		}
 		for i := range pts {
 			pts[i] = point{v: valueGen().Draw(t, "v"), rate: rapid.SampledFrom([]float64{1, 1, 1, 0.5, 0.25, 0.1, 0.3, 0.01}).Draw(t, "rate")}
+			if cluster != 0 {
+				pts[i].v = cluster + float64(rapid.IntRange(0, 8).Draw(t, "cluster-offset"))
+			}
 			if rapid.IntRange(0, 4).Draw(t, "dupv") == 0 && i > 0 {
 				pts[i].v = pts[rapid.IntRange(0, i-1).Draw(t, "dupidx")].v
 			}
@@ -306,8 +315,12 @@ func checkStats(t vt.TB, tm gostatsd.Timer, pts []point, pcts []float64, mask go
 		devs = append(devs, (v-mean)*(v-mean))
 	}
 	std := math.Sqrt(neumaier(devs) / float64(n))
-	if !near(tm.StdDev, std, math.Max(math.Abs(vals[0]), math.Abs(vals[n-1]))*1e3) {
-		vt.Fail(t, "C08:stddev", "population standard deviation %v want %v", tm.StdDev, std)
+	// the deviation is a statistic of the spread: its error budget is 1e-9 of the spread plus what rounding the mean of n
+	// values of this magnitude can contribute (a few n*eps*max|v|), not a fraction of the magnitude itself
+	maxAbs := math.Max(math.Abs(vals[0]), math.Abs(vals[n-1]))
+	stdTol := 1e-9*(vals[n-1]-vals[0]) + 4*float64(n)*2.3e-16*maxAbs
+	if d := math.Abs(tm.StdDev - std); !(d <= stdTol) {
+		vt.Fail(t, "C08:stddev", "population standard deviation %v want %v (values %v .. %v, n=%d, tolerance %g)", tm.StdDev, std, vals[0], vals[n-1], n, stdTol)
 	}
 	if tm.Histogram != nil {
 		vt.Fail(t, "C08:unexpected-histogram", "timer without histogram tag reports a histogram %v", tm.Histogram)
